@@ -242,6 +242,11 @@ impl<Data> IoLoopInner for LoopInner<'_, Data> {
         if let Ok(slot) = self.sources.borrow_mut().get_mut(token.inner) {
             slot.source = None;
         }
+        // The adapter is going away: its fd must leave the poller as well, otherwise it stays
+        // registered under a key that no longer belongs to anything and cannot be inserted again.
+        if let Ok(poll) = self.poll.try_borrow() {
+            let _ = poll.unregister(unsafe { BorrowedFd::borrow_raw(dispatcher.borrow().fd) });
+        }
     }
 }
 
